@@ -49,3 +49,65 @@ def run(pid, seed, tier, model, deadline):
         res['mismatches'] += more.get('mismatches', [])
         res['coverage'].update(more.get('coverage') or {})
     return res
+
+
+def rechunk(ops, rng, p_split=0.7):
+    """the same history with deliveries cut into pieces: recv(d) -> recv(d1) recv(d2) ..., xfer(all) -> xfer(n1) ... xfer(all)"""
+    out = []
+    for op in ops:
+        if op['op'] == 'recv' and len(op['data']) >= 1 and rng.random() < p_split:
+            d = op['data']
+            k = rng.choice([1, 1, 2, 3, 5]) if len(d) > 1 else 1
+            if rng.random() < 0.1:
+                cuts = list(range(1, len(d)))[:40]            # byte by byte at the front
+            else:
+                cuts = sorted(rng.randrange(0, len(d) + 1) for _ in range(k))
+            prev = 0
+            for c in cuts:
+                out.append(dict(op, data=d[prev:c]))
+                prev = c
+            out.append(dict(op, data=d[prev:]))
+        elif op['op'] == 'xfer' and op.get('n') is None and rng.random() < p_split:
+            for _ in range(rng.choice([1, 1, 2, 3])):
+                out.append(dict(op, n=rng.choice([0, 1, 3, 8, 9, 10, 17, 24, 30, 50, 100, 1000, 16393])))
+            out.append(op)
+        else:
+            out.append(op)
+    return out
+
+
+def special_C21(seed, tier, model, deadline):
+    """programs of the C21 profile, re-delivered in random chunkings (on the real library and on the model), judged by
+    the metamorphic oracle against delivery in one piece"""
+    import random
+    import time
+    from corr import gen_program, replay
+    from oracles import oracle_C21
+    from profiles import PROFILES
+    import checklib as L
+    n = {'quick': 120, 'thorough': 2500}.get(tier, 120)
+    fails, mism, progs, nops, groups = [], [], 0, 0, 0
+    profs = PROFILES['C21']
+    for k in range(n):
+        if time.time() > deadline:
+            break
+        rng = random.Random((seed * 7368787 + k) & 0xFFFFFFFF)
+        p = profs[k % len(profs)]
+        r0 = gen_program(rng, None, mode=p['mode'], steps=p['steps'], weights=p.get('weights'), invalid=p.get('invalid', 0.15),
+                         stop_on_mismatch=False)
+        ops = rechunk(r0.ops, rng)
+        r = replay(ops, model)
+        progs += 1
+        nops += len(ops)
+        groups += len(ops) - len(r0.ops)
+        if model is not None:
+            for idx, (op, ol, ml, obs) in enumerate(r.log):
+                if ml is not None and obs is not None and not r.unmodelled_at(idx) and L.project('C21', ol) != L.project('C21', ml):
+                    mism.append({'seed': seed, 'k': 'rechunk-%d' % k, 'idx': idx, 'ops': ops[:idx + 1]})
+                    break
+        fs = oracle_C21(r)
+        if fs:
+            f = min(fs, key=lambda x: x['idx'])
+            fails.append({'seed': seed, 'k': 'rechunk-%d' % k, 'failure': f, 'ops': ops[:f['idx'] + 1]})
+    return {'failures': fails, 'mismatches': mism,
+            'coverage': {'rechunked_programs': progs, 'rechunked_ops': nops, 'extra_chunks': groups}}
